@@ -83,6 +83,8 @@ class RegionModel(PyObj):
             def sw(c, ra, dec, degin=False):
                 self.calls.append(degin)
                 if not (isinstance(ra, SArr) and isinstance(dec, SArr)):
+                    if isinstance(ra, Opaque) or isinstance(dec, Opaque):
+                        return Opaque("sky_within of unmodelled positions")     # a query: does not modify the region
                     raise Undecided("sky_within called with unmodelled arguments")
                 c.oblige("pre", "sky_within.ra_dec_same_length", ra.shape_[0] == dec.shape_[0])
                 a, d = ra.snapshot(), dec.snapshot()
